@@ -16,7 +16,8 @@ func init() { hx.Register("csum", runCsum) }
 
 const (
 	csumMaxLen   = 9216 // longest buffer generated (jumbo frame); the systematic sweep covers 0..4096
-	csumPoolSize = csumMaxLen + 64
+	csumPatSize  = csumMaxLen + 64 // patterned backing arrays (regenerated in Coq from the rule)
+	csumPoolSize = 4096 + 64       // random pools (printed as literals into every shard)
 	csumNPat     = 8
 )
 
@@ -85,17 +86,17 @@ func runCsum(c *hx.Ctx) {
 	}
 	pats := make([][]byte, csumNPat)
 	for p := range pats {
-		pats[p] = csumAligned(csumPoolSize)
+		pats[p] = csumAligned(csumPatSize)
 		for i := range pats[p] {
 			pats[p][i] = csumPatByte(p, i)
 		}
 	}
-	scratch := csumAligned(csumPoolSize)
+	scratch := csumAligned(csumPatSize)
 
 	var imp strings.Builder
 	imp.WriteString("From NV Require Import corr.Csum_corr.\n")
 	fmt.Fprintf(&imp, "Definition csum_pools : list (list N) := [%s;\n %s].", hx.Bytes(pools[0]), hx.Bytes(pools[1]))
-	cw := c.NewCaseWriter(imp.String(), "Csum_corr.case", "(Csum_corr.check_case csum_pools)", 600)
+	cw := c.NewCaseWriter(imp.String(), "Csum_corr.case", "(Csum_corr.check_case csum_pools)", 1200)
 
 	seeds := []uint16{0, 1, 0xffff, 0x8000, 0xfffe, 0x00ff, 0xff00, 0x7fff}
 	pickSeed := func() uint16 {
@@ -150,7 +151,7 @@ func runCsum(c *hx.Ctx) {
 				}
 			}
 		}
-		chkGv := length <= 640 || c.Intn(6) == 0
+		chkGv := length <= 512 || c.Intn(8) == 0
 		lit := hx.App("Csum_corr.Case", src, hx.N(uint64(seed)), hx.N(addr8), hx.N(uint64(obs)), hx.N(uint64(obsg)), obsa, hx.Bool(chkGv))
 		cw.Add(lit, label+"/"+srcName, length >= 32, desc)
 	}
@@ -216,9 +217,16 @@ func runCsum(c *hx.Ctx) {
 				length = c.Intn(601)
 			}
 		}
+		size := csumPatSize
+		if kind == csumNPat || kind == csumNPat+1 {
+			size = csumPoolSize
+			if length > 4096 {
+				length = c.Intn(4097)
+			}
+		}
 		off := c.Intn(64)
 		if c.Chance(0.3) {
-			off = c.Intn(csumPoolSize - length + 1)
+			off = c.Intn(size - length + 1)
 		}
 		emit(kind, off, length, pickSeed(), "random")
 	}
